@@ -3,6 +3,8 @@ package props
 import (
 	"fmt"
 	"math"
+	"runtime"
+	"time"
 
 	"pipelined.dev/signal"
 	"verifharness/core"
@@ -234,6 +236,36 @@ func c14Retained(c *core.Ctx, t *dyn.TypeOps, ch, l, k int, caseID string) {
 		}
 	}
 	c.Sample("retained-views", d)
+	// the parent of the view is a window of a pooled buffer whose own header
+	// is dropped: what was written through the view must be read back through
+	// it after garbage collections and further use of the pool
+	pool := t.PoolAlloc(signal.Allocator{Channels: ch, Length: 4, Capacity: 4})
+	mkView := func() (dyn.Buf, dyn.Chan) {
+		w := pool.Get().Slice(1, 3)
+		return w, w.Channel(ch - 1)
+	}
+	win, view := mkView()
+	vals := []dyn.Val{stamp(), stamp()}
+	for i, v := range vals {
+		view.SetSample(i, v)
+	}
+	for round := 0; round < 3; round++ {
+		runtime.GC()
+		runtime.Gosched()
+		time.Sleep(300 * time.Microsecond)
+		other := pool.Get()
+		for i := 0; i < other.Len(); i++ {
+			other.SetSample(i, stamp())
+		}
+		for i, v := range vals {
+			if got := view.Sample(i); !got.Same(v) || !win.Sample(ch*i+ch-1).Same(v) {
+				c.Violate(inst+"|view-of-pooled-window-after-gc", caseID, fmt.Sprintf("view of a window of a pooled buffer (root header dropped): wrote %v at index %d, after a garbage collection and another Get it reads %v", v, i, got), d)
+				return
+			}
+		}
+		runtime.KeepAlive(other)
+	}
+	c.Obs("views_of_dropped_pool_buffers_rechecked_after_gc", 1)
 }
 
 func c14Case(c *core.Ctx, t *dyn.TypeOps, ch, k, s, e int, caseID string) {
@@ -296,6 +328,13 @@ func c14Case(c *core.Ctx, t *dyn.TypeOps, ch, k, s, e int, caseID string) {
 			case 6:
 				if t.Kind == dyn.KFloat {
 					v = dyn.FloatVal(math.NaN())
+				}
+			case 2:
+				if t.Kind == dyn.KFloat {
+					// -0 over +0: first make the cell +0 through the parent
+					w.B.RawAll().Set(pos, dyn.FloatVal(0))
+					w.Expect(pos, dyn.FloatVal(0))
+					v = dyn.FloatVal(math.Copysign(0, -1))
 				}
 			}
 			if p, msg := core.Guard(func() { view.SetSample(i, v) }); p {
